@@ -462,6 +462,61 @@ def run(ctx: Ctx) -> int:
         if ci < 3:
             ctx.sample({"circuit": text, "stim_dem": str(stim.Circuit(text).detector_error_model(
                 approximate_disjoint_errors=True, allow_gauge_detectors=True))[:300]})
+    # ---- the model of ONE circuit object asked repeatedly, with in-place changes in between (pop, pop(i), +=, *=, append): every answer is
+    #      the model of the circuit as it is at that moment
+    hist_n = 0
+    for text in [t for t in circuits if t.count("\n") >= 3][: (25 if quick else 300)]:
+        try:
+            c = Circuit(text)
+        except Exception:
+            continue
+        fl = {"approximate_disjoint_errors": True, "allow_gauge_detectors": True}
+        ops_done = []
+        bad_h = None
+        for step in range(3):
+            try:
+                c.detector_error_model(**fl)          # ask before the change
+            except Exception:
+                pass
+            op = rng.choice(["pop", "pop0", "popmid", "iadd", "imul", "append"])
+            try:
+                if op == "pop" and len(c) > 2:
+                    c.pop()
+                elif op == "pop0" and len(c) > 2:
+                    c.pop(0)
+                elif op == "popmid" and len(c) > 3:
+                    c.pop(len(c) // 2)
+                elif op == "iadd":
+                    c += Circuit("X_ERROR(0.125) 0\nM 0\nDETECTOR rec[-1]")
+                elif op == "imul":
+                    c *= 2
+                elif op == "append":
+                    c.append_from_stim_program_text("Z_ERROR(0.25) 0\nMX 0\nOBSERVABLE_INCLUDE(0) rec[-1]")
+                else:
+                    continue
+            except Exception:
+                break
+            ops_done.append(op)
+            try:
+                ref = c.stim_circuit.copy().detector_error_model(**fl)      # the object, not its text (printing rounds the arguments)
+            except Exception:
+                continue                           # Stim cannot analyse the changed circuit: not a case
+            try:
+                got = c.detector_error_model(**fl)
+            except Exception:
+                continue                           # loud (e.g. the documented gauge filter) -- the differential above covers fresh circuits
+            hist_n += 1
+            ctx.count(("dem-history", text, tuple(ops_done)), nontrivial=True, bucket="dem-after-in-place-change")
+            a, b = canon(got), canon(ref)
+            if a != b and not (not (a[0] - b[0]) and a[1:] == b[1:] and all(k[0] == "0.5" and not k[1] and k[2] for k in (b[0] - a[0]))):
+                bad_h = (f"after detector_error_model(); {'; '.join(ops_done)}: detector_error_model() = {json.dumps(show_canon(a))[:300]} but the circuit now is "
+                         f"{str(c.stim_circuit)!r}, for which Stim gives {json.dumps(show_canon(b))[:300]}")
+                break
+        if bad_h:
+            ctx.violation("dem-after-change:" + ops_done[-1], "the detector error model of a circuit object changed in place is not the model of its current content: " + bad_h,
+                          {"circuit": text, "ops": ops_done, "kind": "history"})
+            break
+    ctx.cov["dem_history_steps"] = hist_n
     ctx.cov["circuits"] = len(circuits)
     ctx.cov["record_appending_instructions_used"] = dict(used_names)
     missing_names = sorted(produces - set(used_names))
